@@ -429,7 +429,8 @@ func c08CLI(res *engine.JobResult) {
 			for s3 := 0; s3 <= 3; s3 += 3 {
 				targets := c08Supply([4]int{s0, s1, 2, s3})
 				for _, o := range []udOpts{{SizeTotal: 5}, {SizeUp: 2, SizeSide: 1, NoFill: true}, {DistAll: 2}, {DistPush: 1},
-					{DistUp: 1, DistDown: 2, DistSide: 3}, {SizeSame: 1, SizeUp: 1, SizeDown: 2, SizeSide: 3}, {DistAll: 3, ThreshPair: 0.5, ThreshTarget: 1}, {SizeTotal: 6, Ignore: []string{"up0", "side1"}}} {
+					{DistUp: 1, DistDown: 2, DistSide: 3}, {SizeSame: 1, SizeUp: 1, SizeDown: 2, SizeSide: 3}, {DistAll: 3, ThreshPair: 0.5, ThreshTarget: 1}, {SizeTotal: 6, Ignore: []string{"up0", "side1"}},
+					{SizeTotal: 8, NoFill: true}, {SizeTotal: 4, NoFill: true}, {DistAll: 1, DistDown: 3}, {DistAll: 2, DistUp: 1, DistSide: 3}} {
 					k++
 					if o.ThreshPair == 0 {
 						o.ThreshPair, o.ThreshTarget = 0.1, 10000
